@@ -83,6 +83,7 @@ type sim struct {
 	bad      func(clause, sig, detail string)
 	expect   map[string]bool // message ids that must be handed over by the next send of their topic
 	topicOf  map[string]string
+	possible map[uint16]map[string]int // sender -> topic -> messages received since the topic last started
 	stale    map[string]bool
 	lastSend map[string]int
 	epoch    int
@@ -91,7 +92,7 @@ type sim struct {
 func newSim(c *harness.C, expire time.Duration) *sim {
 	s := &sim{c: c, expire: expire, h: &handler{}, tick: make(chan time.Time), start: time.Now(),
 		ref:    &ref{buffered: map[string]map[uint16][]string{}, started: map[string]bool{}, lastUse: map[string]time.Duration{}, handed: map[string]int{}},
-		expect: map[string]bool{}, topicOf: map[string]string{}, stale: map[string]bool{}, lastSend: map[string]int{}}
+		expect: map[string]bool{}, topicOf: map[string]string{}, possible: map[uint16]map[string]int{}, stale: map[string]bool{}, lastSend: map[string]int{}}
 	s.box = &msg.Box{Logger: world.NopLogger{}, MaxInFlightTopicsBySender: maxTopics, GCSweep: sweep, GCExpire: expire,
 		NewTicker:      func(time.Duration) *time.Ticker { return &time.Ticker{C: s.tick} },
 		ForwardSend:    func(uint8, []byte, []byte, ...tss.UniversalID) {},
@@ -123,16 +124,27 @@ func (s *sim) recv(sender uint16, topic string) {
 	id := fmt.Sprintf("m%d", s.next)
 	s.next++
 	s.topicOf[id] = topic
-	// model decision BEFORE the call
-	act := s.activeTopics(sender)
+	// model decision BEFORE the call. The limits are enforced "give or take one", so the box may
+	// hold more than the model demands; the model therefore charges the sender with every topic and
+	// message it has received since the topic last started (accepted or not), and demands
+	// acceptance only when even that upper bound is within the limits.
+	if s.possible[sender] == nil {
+		s.possible[sender] = map[string]int{}
+	}
+	poss := s.possible[sender]
 	within := true
-	if !act[topic] && len(act) >= maxTopics {
+	if _, known := poss[topic]; !known && len(poss) >= maxTopics {
 		within = false // a new topic beyond the limit
 	}
+	if len(poss) > maxTopics {
+		within = false // the sender already exceeds the topic limit
+	}
 	expired := false // lazy view, see activeTopics
-	cnt := len(s.ref.buffered[topic][sender])
-	if cnt >= perSender {
+	if poss[topic] >= perSender {
 		within = false
+	}
+	if !s.ref.started[topic] {
+		poss[topic]++
 	}
 	before := len(s.h.log)
 	s.box.HandleMessage(&tss.IncMessage{Data: []byte(id), Source: sender, MsgType: uint8(tss.MsgTypeMPC), Topic: topicBytes(topic)})
@@ -150,6 +162,14 @@ func (s *sim) recv(sender uint16, topic string) {
 			s.bad("forward-after-start", "c15-started-topic-not-forwarded", fmt.Sprintf("message for started topic %s was not handed over immediately", topic))
 		}
 		return
+	}
+	if lu, ok := s.ref.lastUse[topic]; ok && s.now()-lu >= s.expire {
+		// the topic had been idle for the expiry period: what was buffered may have been discarded
+		for _, ids := range s.ref.buffered[topic] {
+			for _, old := range ids {
+				s.stale[old] = true
+			}
+		}
 	}
 	if within {
 		if expired {
@@ -176,7 +196,7 @@ func (s *sim) send(topic string) {
 		expired := s.now()-s.ref.lastUse[topic] >= s.expire
 		for sender, ids := range s.ref.buffered[topic] {
 			for _, id := range ids {
-				if expired {
+				if expired || s.stale[id] {
 					continue // may legitimately have been discarded
 				}
 				if got[id] != 1 {
@@ -197,6 +217,9 @@ func (s *sim) send(topic string) {
 		}
 	}
 	s.ref.started[topic] = true
+	for _, poss := range s.possible {
+		delete(poss, topic)
+	}
 	s.lastSend[topic] = s.epoch
 	delete(s.ref.buffered, topic)
 }
